@@ -368,7 +368,37 @@ var hasTables = regexp.MustCompile(`, tables [1-9]`)
 
 var quiet = slog.New(slog.NewTextHandler(io.Discard, nil))
 
-func (eng) Execute(mode string, c *hx.Case) (*hx.Result, error) {
+// Execute runs the case under a watchdog: a history of at most a few hundred store operations that does not finish in
+// 30 s means that a loop of the implementation does not terminate (reported by hx as a violation with this case as replay).
+func (e eng) Execute(mode string, c *hx.Case) (*hx.Result, error) {
+	type ret struct {
+		res *hx.Result
+		err error
+		pan any
+	}
+	ch := make(chan ret, 1)
+	go func() {
+		var r ret
+		defer func() {
+			if p := recover(); p != nil {
+				r.pan = p
+			}
+			ch <- r
+		}()
+		r.res, r.err = e.execute(mode, c)
+	}()
+	select {
+	case r := <-ch:
+		if r.pan != nil {
+			panic(r.pan)
+		}
+		return r.res, r.err
+	case <-time.After(30 * time.Second):
+		panic("watchdog: the case did not finish within 30 s (a TimerStore / AdvanceWatermark loop does not terminate)")
+	}
+}
+
+func (eng) execute(mode string, c *hx.Case) (*hx.Result, error) {
 	cf := cfgOf(c)
 	ks := partitioning.NewKeySpace(cf.Count, cf.NRanges)
 	rng := ks.KeyGroupRanges()[cf.Range]
@@ -411,7 +441,9 @@ func (eng) Execute(mode string, c *hx.Case) (*hx.Result, error) {
 			}
 		}
 	}
+	nSets := 0
 	setTimer := func(key []byte, t int64) {
+		nSets++
 		reg.SetTimer(key, time.Unix(0, t))
 		pending[fmt.Sprintf("%x/%d", key, t)] = firedJ{K: key, T: t} // over-approximation (ignores the guard); tags only
 		noteOverflow()
@@ -437,6 +469,9 @@ func (eng) Execute(mode string, c *hx.Case) (*hx.Result, error) {
 			var dur []string
 			n := 0
 			for k, ts := range reg.AdvanceWatermark(srName(o.Sr), &workerpb.Watermark{Timestamp: timestamppb.New(time.Unix(0, o.T))}) {
+				if n > nSets+4 {
+					panic(fmt.Sprintf("op %d: AdvanceWatermark yielded %d timers although only %d were ever set", i, n+1, nSets))
+				}
 				out = append(out, firedJ{K: append([]byte{}, k...), T: ts.UnixNano()})
 				delete(pending, fmt.Sprintf("%x/%d", k, ts.UnixNano()))
 				n++
